@@ -233,7 +233,7 @@ var aggAmounts = []float64{
 	0, 0, 1, 100, 1234.5, 2500.75, 99999.125, 3.3333333333333335, 1e-3, 7,
 	5e-324, 1e-160, 2.2250738585072014e-308, 1e15, 1e100, 4503599627370497, 0.1, 0.30000000000000004,
 }
-var aggAVs = []float64{100, 100, 150, 250, 99.99999999999999, 100.00000000000001, 1e-3, 1e6, 37.5, 1000}
+var aggAVs = []float64{100, 100, 0, 150, 250, 99.99999999999999, 100.00000000000001, 1e-3, 1e6, 37.5, 1000}
 
 func aggNeighbour(r *term.Rng, x float64) float64 {
 	switch r.Intn(3) {
